@@ -4,6 +4,7 @@ import (
 	"bytes"
 	"context"
 	"fmt"
+	"reflect"
 	"sort"
 	"strings"
 
@@ -45,7 +46,12 @@ var (
 	//   struct/tag  struct{ Fv T `json:"kv"` }                       key "kv"  (JSON tag)
 	//   struct/field same struct, addressed by its Go field name     key "Fv"
 	//   ptr/...     pointer to the same structs
-	fillModes = [][2]string{{"map", "key"}, {"struct", "name"}, {"struct", "tag"}, {"struct", "field"}, {"ptr", "name"}, {"ptr", "tag"}, {"ptr", "field"}}
+	//   struct/tagopt struct{ Fv T `json:"kv,omitempty"`; Hidden string `json:"-"`; Plain string;
+	//               Extra string `json:"extra,omitempty"` }          key "kv"  (tag with an option)
+	// Tag options are not part of the name: docs and code strip them. In particular a field keeps
+	// defining its key when it holds the zero value (vuego documents no "omitempty" semantics; the
+	// same data as a map defines the key, and struct data is documented to behave like it).
+	fillModes = [][2]string{{"map", "key"}, {"struct", "name"}, {"struct", "tag"}, {"struct", "tagopt"}, {"struct", "field"}, {"ptr", "name"}, {"ptr", "tag"}, {"ptr", "tagopt"}, {"ptr", "field"}}
 )
 
 // CaseA is one family-A case: pure data.
@@ -55,7 +61,7 @@ type CaseA struct {
 	VType string            `json:"vtype"`           // string | int | bool | list | map
 	Ctor  string            `json:"ctor,omitempty"`  // "" / newfs = vuego.NewFS(fsys); withfs = vuego.New(vuego.WithFS(fsys))
 	Fill  string            `json:"fill"`            // map | struct | ptr
-	Addr  string            `json:"addr"`            // key | name | tag | field
+	Addr  string            `json:"addr"`            // key | name | tag | tagopt | field
 	Pos   string            `json:"pos"`             // interp | expr | vif | attr | get
 	Decoy bool              `json:"decoy,omitempty"` // absent sources exist/are called, but define another key
 }
@@ -109,7 +115,7 @@ type (
 		Extra string
 	}
 	tStr struct {
-		Fv    string `json:"kv"`
+		Fv    string `json:"kv,string"`
 		Extra string `json:"extra"`
 	}
 	tInt struct {
@@ -157,7 +163,80 @@ func tokens(v vals.V) []string {
 	return []string{v.S}
 }
 
+// isZero reports whether the described value is the zero value of its Go type.
+func isZero(v vals.V) bool {
+	switch v.K {
+	case "string":
+		return v.S == ""
+	case "int":
+		return v.S == "0"
+	case "bool":
+		return v.S != "true"
+	case "nil[]string", "nil[]any", "nilmap":
+		return true
+	}
+	return false
+}
+
+// zeroOf is the zero value of a family-A value type.
+func zeroOf(vt string) vals.V {
+	switch vt {
+	case "string":
+		return vals.Str("")
+	case "int":
+		return vals.Int(0)
+	case "bool":
+		return vals.Bool(false)
+	case "list":
+		return vals.V{K: "nil[]string"}
+	}
+	return vals.V{K: "nilmap"}
+}
+
+// optStruct builds the struct/tagopt carrier with reflect.StructOf.
+func optStruct(vt string, v vals.V) (reflect.Value, error) {
+	var typ reflect.Type
+	switch vt {
+	case "string":
+		typ = reflect.TypeOf("")
+	case "int":
+		typ = reflect.TypeOf(0)
+	case "bool":
+		typ = reflect.TypeOf(false)
+	case "list":
+		typ = reflect.TypeOf([]string(nil))
+	case "map":
+		typ = reflect.TypeOf(map[string]any(nil))
+	default:
+		return reflect.Value{}, fmt.Errorf("bad vtype %q", vt)
+	}
+	str := reflect.TypeOf("")
+	pv := reflect.New(reflect.StructOf([]reflect.StructField{
+		{Name: "Fv", Type: typ, Tag: `json:"kv,omitempty"`},
+		{Name: "Hidden", Type: str, Tag: `json:"-"`},
+		{Name: "Plain", Type: str},
+		{Name: "Extra", Type: str, Tag: `json:"extra,omitempty"`},
+	}))
+	if !isZero(v) {
+		var gv any = v.Go()
+		if vt == "list" {
+			gv = strsOf(v)
+		}
+		rv := reflect.ValueOf(gv)
+		if !rv.Type().AssignableTo(typ) {
+			return reflect.Value{}, fmt.Errorf("value %s does not fit vtype %s", v, vt)
+		}
+		pv.Elem().Field(0).Set(rv)
+	}
+	pv.Elem().Field(1).SetString("h")
+	pv.Elem().Field(2).SetString("p")
+	return pv, nil
+}
+
 func strsOf(v vals.V) []string {
+	if len(v.L) == 0 {
+		return nil
+	}
 	out := make([]string, len(v.L))
 	for i, e := range v.L {
 		out[i] = e.S
@@ -169,6 +248,16 @@ func strsOf(v vals.V) []string {
 func (c CaseA) fillArg(v vals.V) (any, error) {
 	if c.Fill == "map" {
 		return map[string]any{c.key(): v.Go(), "extra": "x"}, nil
+	}
+	if c.Addr == "tagopt" {
+		pv, err := optStruct(c.VType, v)
+		if err != nil {
+			return nil, err
+		}
+		if c.Fill == "ptr" {
+			return pv.Interface(), nil
+		}
+		return pv.Elem().Interface(), nil
 	}
 	tagged := c.Addr == "tag" || c.Addr == "field"
 	var s, p any
@@ -322,7 +411,9 @@ func (c CaseA) body() string {
 			}
 		case "vif":
 			for _, s := range srcs {
-				fmt.Fprintf(&b, `<b data-m="is-%s" v-if="%s == '%s'">x</b>`, s, p[0], c.probeValues(s)[0])
+				if !isZero(c.Vals[s]) {
+					fmt.Fprintf(&b, `<b data-m="is-%s" v-if="%s == '%s'">x</b>`, s, p[0], c.probeValues(s)[0])
+				}
 			}
 		case "attr":
 			fmt.Fprintf(&b, `<p data-m="v1" :data-x="%s">x</p>`, p[1])
@@ -390,6 +481,12 @@ func checkA(c CaseA) error {
 		if !ok {
 			return fmt.Errorf("malformed case: source %q has no value", s)
 		}
+		if isZero(v) {
+			if s != "fill" && s != "assign" && c.VType != "bool" {
+				return fmt.Errorf("malformed case: only Fill and Assign may give a zero value, not %q", s)
+			}
+			continue
+		}
 		if (c.VType == "list" && len(v.L) != 2) || (c.VType == "map" && (v.M["x"].S == "" || v.M["only"+s].S == "")) {
 			return fmt.Errorf("malformed case: value of source %q does not have the shape of vtype %s", s, c.VType)
 		}
@@ -432,8 +529,8 @@ func checkA(c CaseA) error {
 			return nil // two values only; equality below is the check
 		}
 		for _, s := range c.Have {
-			if s == wsrc {
-				continue
+			if s == wsrc || isZero(c.Vals[s]) {
+				continue // a zero value ("", 0, nil) has nothing recognisable to look for
 			}
 			for _, tok := range tokens(c.Vals[s]) {
 				if tok != "" && strings.Contains(got, tok) {
@@ -451,6 +548,9 @@ func checkA(c CaseA) error {
 		}
 		if !any {
 			return nil // undefined everywhere: the result of Get is not specified beyond "nothing leaks"
+		}
+		if c.composite() && isZero(wv) {
+			return nil // string form of a nil list / map: unspecified; nothing of a loser was seen
 		}
 		if c.composite() {
 			// the string form of a list / map is not specified: the winner's items must be mentioned
@@ -530,6 +630,14 @@ func checkA(c CaseA) error {
 		return nil
 	}
 
+	if c.composite() && isZero(wv) {
+		// the chosen value is a nil list / map: nothing of a lower source was seen (scan above) and
+		// no comparison with a lower source's element holds
+		if len(hits) > 0 {
+			return fmt.Errorf("render (vif): %s: %v held although the chosen value is nil", desc, hits)
+		}
+		return nil
+	}
 	if c.composite() {
 		pv := c.probeValues(wsrc)
 		switch c.Pos {
@@ -589,7 +697,7 @@ func checkA(c CaseA) error {
 		}
 		// truthiness of the chosen value (docs/syntax.md: 0, false, "", nil are falsey; every value
 		// used here except bool false is non-zero / non-empty)
-		truthy := !(c.VType == "bool" && want == "false")
+		truthy := !isZero(wv)
 		_, sawT := byID["truthy"]
 		_, sawF := byID["falsy"]
 		if sawT != truthy {
@@ -600,14 +708,14 @@ func checkA(c CaseA) error {
 			return fmt.Errorf("render (vif): %s: v-if=%q rendered=%v, but the chosen value is %s", desc, "!"+k, sawF, want)
 		}
 	case "attr":
-		if c.VType == "bool" && want == "false" {
-			// whether a false binding is dropped or printed as "false" is not specified
+		if isZero(wv) {
+			// whether a falsy binding (false, 0, "") is dropped or printed is not specified
 			m, err := one("v")
 			if err != nil {
 				return err
 			}
-			if got, has := m.Attrs["data-x"]; has && got != "false" {
-				return fmt.Errorf("render (attr): %s: bound attribute is %q for the value false", desc, got)
+			if got, has := m.Attrs["data-x"]; has && got != want {
+				return fmt.Errorf("render (attr): %s: bound attribute is %q for the value %q", desc, got, want)
 			}
 			return nil
 		}
@@ -680,6 +788,29 @@ func enumA(f func(c CaseA, excluded string) bool) {
 								}
 							}
 						}
+						// zero values: Fill (or Assign) gives the key its zero value ("", 0, nil list,
+						// nil map; bool false is covered by the polarities above). The key is still
+						// defined by that source, so it still beats every lower source.
+						if vt == "bool" {
+							continue
+						}
+						for _, at := range []string{"fill", "assign"} {
+							if _, ok := vs[at]; !ok {
+								continue
+							}
+							if (vt == "list" || vt == "map") && pos == "expr" {
+								continue // indexing a nil list / map inside an expression: unspecified
+							}
+							zs := map[string]vals.V{}
+							for s, v := range vs {
+								zs[s] = v
+							}
+							zs[at] = zeroOf(vt)
+							c := CaseA{Have: have, Vals: zs, VType: vt, Ctor: "newfs", Fill: fm[0], Addr: fm[1], Pos: pos}
+							if !f(c, excludedA(known, c)) {
+								return
+							}
+						}
 					}
 				}
 			}
@@ -722,6 +853,14 @@ func classifyA(c CaseA) (bool, []string) {
 	}
 	if c.Decoy {
 		cls = append(cls, "decoy")
+	}
+	for _, s := range []string{"fill", "assign"} {
+		if v, ok := c.Vals[s]; ok && c.has(s) && c.VType != "bool" && isZero(v) {
+			cls = append(cls, "zero-value-from="+s)
+			if w == s {
+				cls = append(cls, "zero-value-wins-over-lower-source")
+			}
+		}
 	}
 	if c.Ctor == "withfs" {
 		cls = append(cls, "ctor=New(WithFS)")
